@@ -113,6 +113,16 @@ def cases(tier, seed):
         cs.append({'gen': 'qtt', 'N': N, 'ttm': i % 4 == 3, 'eps': [None, 1e-10, 1e-4, 1e-1][i % 4], 'vals': ['gauss', 'decay', 'tiny'][i % 3], 'dtype': DTS[(i // 4) % 4], 'ms': 2})
     for N in ([3], [9], [27], [3, 9], [9, 9]):
         cs.append({'gen': 'qtt', 'N': N, 'ttm': False, 'eps': None, 'vals': 'gauss', 'dtype': 'f64', 'ms': 3})
+    # deep geometric decay at tiny eps: reshape (merge / split / regroup) and permute of order-3 superdiagonal tensors with 9-11 singular values per bond
+    for i in range(12 if tier == 'quick' else 120):
+        n = rng.choice((9, 10))
+        eps = [1e-12, 1e-10, 1e-9, 1e-7][i % 4]
+        dtp = ['f64', 'c128'][i % 2]
+        if i % 3 == 0:
+            cs.append({'gen': 'permute', 'N': [n, n, n], 'M': None, 'perm': [[1, 0, 2], [0, 2, 1], [2, 1, 0], [1, 2, 0]][(i // 3) % 4], 'eps': eps, 'vals': 'deep', 'dtype': dtp})
+        else:
+            cs.append({'gen': 'reshape_t', 'N': [n, n, n], 'target': [[n * n, n], [n, n * n], [n, 1, n, n], [n, n, n, 1]][(i // 3) % 4], 'eps': eps, 'vals': 'deep', 'dtype': dtp})
+
     from .. import hist
     cs += hist.cases(PROP, tier, seed)
     return cs
@@ -142,6 +152,10 @@ def build(case, g, N, M=None):
     if case.get('fullrank'):
         R = [1] + [2] * (d - 1) + [1]
     vals = case['vals']
+    if vals == 'deep':
+        # superdiagonal tensor with singular values 10^(-1.25 j) on every bond (down to 1e-12 of the norm), gauged: truncation decisions that matter only at tiny eps
+        from .c02 import build as build_c02
+        return build_c02({'kind': 'gauge_deep', 'N': list(N), 'M': ([1] * d if M else None), 'dtype': case['dtype'], 'seed': case['seed'], 'gen': 'breakpoints'}, None, g)
     if vals == 'decay':
         # cores whose singular spectra decay geometrically: truncation at loose eps is really active
         cores = gens.make_cores(N, R, dt, 'gauss', g, M=M)
